@@ -105,6 +105,55 @@ def chk_parcons(o, out):
     sweep.chk_flag_truthful(o, out)
 
 
+def sym_partition(args):
+    """[S over datasets AND schemes]: parcons_partition on a SymDataset (all datasets with n elements, m rankings at once)"""
+    n, m = args
+    from vf import symds
+    from corankco.partitioning.ordered_partition import OrderedPartition
+    sweep.install()
+    symds.install_kernel_dispatcher()
+    out = []
+    ds = symds.SymDataset(n, m)
+    B, T = fork.scheme_vars()
+    sc = fork.make_scheme(B, T)
+    ws = spec.level_vectors(n)
+    wt = {w: ds.score_term(w, B, T) for w in ws}
+    ex = fork.Explorer(fork.valid_scheme(B, T) + ds.constraints(), max_paths=int(1e5), timeout_ms=120000)
+
+    def pay(mdl, what, cls, groups):
+        lvs = ds.levels_from(mdl)
+        return {"signature": {"site": "parcons_partition(symbolic dataset)", "class": cls}, "what": what, "check": cls, "config": "Copeland", "flag": True,
+                "rankings": shapes.raw_json(lvs, ds.names), "scheme": fork.scheme_values(mdl, B, T), "choices": [],
+                "partition": [sorted(ds.names[x] for x in g) for g in groups]}
+
+    def path(ctx):
+        try:
+            part = OrderedPartition.parcons_partition(ds, sc)
+            groups = [{e.value - 1 for e in g} for g in part]
+        except harness.HarnessError:
+            raise
+        except Exception as e:  # noqa
+            ctx._ensure_model()
+            out.append(pay(ctx.model, f"parcons_partition raised {type(e).__name__}: {e}", "partition-raises", []))
+            return
+        allx = [x for g in groups for x in g]
+        if sorted(allx) != list(range(n)) or any(len(g) == 0 for g in groups):
+            ctx._ensure_model()
+            out.append(pay(ctx.model, f"{groups} is not a partition of the universe", "partition-shape", groups))
+            return
+        cons = [w for w in ws if consistent(w, groups)]
+        if len(cons) == len(ws):
+            STATS.q["property:trivial"] += 1
+            return
+        mdl = ctx.prove(zmin([wt[w] for w in cons]) <= zmin([wt[w] for w in ws]))
+        if mdl is not None:
+            out.append(pay(mdl, f"no optimal consensus is consistent with the ParCons partition {[sorted(g) for g in groups]}", "partition", groups))
+    ex.explore(path)
+    STATS.sample({"symbolic dataset": f"all datasets with n={n} elements and m={m} rankings (levels -1..{n - 1})", "scheme": "12 symbolic reals",
+                  "paths (arc patterns)": STATS.paths})
+    return out
+
+
 def run(run):
     sweep.install()
     if run.thorough:
@@ -130,6 +179,9 @@ def run(run):
                              strata={"*": ["cycles3", "comp3plus1"]})
     part_bounds = run.bounds.pop("sweep (per configuration: shapes n, m; datasets explored / all)")
     run.pmap("partition", sweep.run_item, sweep.order_items(items), chunksize=2)
+    symb = [(2, 2), (3, 1), (3, 2), (2, 3)] + ([(3, 3), (4, 1)] if run.thorough else [])
+    run.bounds["partition on symbolic datasets [S over datasets and schemes] (n, m)"] = symb
+    run.pmap("sym_partition", sym_partition, symb)
     items2 = sweep.make_items(run, CFGS, [chk_parcons, "wellformed"], flags=(True,), light=alg_light, heavy=alg_heavy,
                               strata=strata, strata_heavy=strata_h)
     run.bounds["partition sweep"] = part_bounds["Copeland"]
